@@ -1099,15 +1099,16 @@ fn capitals_to_word_mode(braille: &str) -> String {
             } else if is_word_mode {
                 i += 1;         // skip the 'C'
             }
-            if chars[next_non_cap] == 'G' {
+            if next_non_cap < chars.len() && chars[next_non_cap] == 'G' {
                 // Greek letters are a bit exceptional in that the pattern is "CGLx" -- bump 'i'
                 next_non_cap += 1;
             }
-            if chars[next_non_cap] != 'L' {
+            // the pattern might not be what is expected (e.g., a typeform indicator after the 'C') -- don't index past the end
+            let i_braille_char = std::cmp::min(next_non_cap + 2, chars.len());
+            if next_non_cap >= chars.len() || chars[next_non_cap] != 'L' {
                 error!("capitals_to_word_mode: internal error: didn't find L after C in '{}'.",
-                       chars[i..next_non_cap+2].iter().collect::<String>().as_str());
+                       chars[i..i_braille_char].iter().collect::<String>().as_str());
             }
-            let i_braille_char = next_non_cap + 2;
             result.push_str(String::from_iter(&chars[i..i_braille_char]).as_str());
             i = i_braille_char;
         } else if ch == 'L' {       // must be lowercase -- uppercase consumed above
